@@ -790,31 +790,157 @@ def _fresh_copy(node):
 
 def split_tuple_matches(root):
     """`match (a, b) { (P1, Q1) => x, (_, Q2) => y, .. }` where the patterns of the first component only classify (field-less variants, literals,
-    wildcards) is the nested `match a { P1 => match b { Q1 => x, Q2 => y, .. }, _ => match b { Q2 => y, .. } }`: the arms that can apply to a class,
-    in their order.  Rules written for a dispatch on one value then see the flattened form as well."""
-    def key_of(p):
-        """classification key of a first-component pattern alternative: None = catch-all, False = not a pure classification"""
+    `Some(<literal>)`, wildcards) is the nested `match a { P1 => match b { Q1 => x, Q2 => y, .. }, _ => match b { Q2 => y, .. } }`: the arms that can
+    apply to a class, in their order.  `match o { Some(0) => x, Some(_) => y, None => z }` is `if let Some(t) = o { match t { 0 => x, _ => y } } else { z }`.
+    Rules written for a dispatch on one value then see the flattened forms as well."""
+    def strip(p):
         while p.get("k") in ("pref", "pderef"):
             p = p["pat"]
+        return p
+
+    def key_of(p):
+        """classification key of a first-component pattern alternative: None = catch-all, False = not a pure classification"""
+        p = strip(p)
         k = p.get("k")
         if k == "pwild":
             return None
-        if k in ("pconst", "ppath") or (k == "pvariant" and all(_is_wild(x) for x in p.get("subs", []))) or (k == "pstruct" and not p.get("fields")):
-            return ("v", p.get("path"), len(p.get("subs", [])))
+        if k in ("pconst", "ppath") or (k == "pstruct" and not p.get("fields")):
+            return ("v", p.get("path"), ())
+        if k == "pvariant":
+            subs = []
+            for x in p.get("subs", []):
+                x = strip(x)
+                if x.get("k") == "pwild":
+                    subs.append(None)
+                elif x.get("k") == "plit" and not isinstance(x.get("v"), (list, dict)):
+                    subs.append(("l", repr(x.get("v"))))
+                else:
+                    return False
+            return ("v", p.get("path"), tuple(subs))
         if k == "plit" and not isinstance(p.get("v"), (list, dict)):
             return ("l", repr(p.get("v")))
         return False
 
-    def _is_wild(p):
-        while p.get("k") in ("pref", "pderef"):
-            p = p["pat"]
-        return p.get("k") == "pwild"
+    def subsumes(pk, k):
+        if pk is None:
+            return True
+        if k is None:
+            return False
+        if pk[0] == "l" or k[0] == "l":
+            return pk == k
+        return pk[1] == k[1] and len(pk[2]) == len(k[2]) and all(a is None or a == b for a, b in zip(pk[2], k[2]))
 
     def simple(e):
         e = peel(e)
         while e.get("k") in ("field", "unary") and (e.get("k") == "field" or e.get("op") == "*"):
             e = peel(e["e"])
         return e.get("k") in ("local", "lit")
+
+    def single(arms, scrut, n):
+        """a match with one unguarded catch-all arm is its body (arms after an unguarded catch-all are dead)"""
+        for i_, a_ in enumerate(arms):
+            p_ = strip(a_["pat"])
+            if "guard" not in a_ and (p_.get("k") == "pwild" or (p_.get("k") == "pbind" and "sub" not in p_)):
+                arms = arms[:i_ + 1]
+                break
+        if len(arms) == 1 and "guard" not in arms[0]:
+            p = strip(arms[0]["pat"])
+            if p.get("k") == "pwild":
+                return arms[0]["body"]
+            if p.get("k") == "pbind" and "sub" not in p:
+                return {"k": "blockexpr", "b": {"k": "block", "stmts": [{"k": "let", "pat": p, "init": scrut, "sp": n.get("sp")}], "tail": arms[0]["body"]}, "ty": n.get("ty"), "sp": n.get("sp")}
+        return {"k": "match", "scrut": scrut, "arms": arms, "ty": n.get("ty"), "sp": n.get("sp"), "src": "match", "split_from_tuple": True}
+
+    def split_tuple(holder, key, n):
+        sc = peel(n["scrut"])
+        if sc.get("k") != "tuple" or len(sc.get("es", [])) < 2 or not all(simple(x) for x in sc["es"]):
+            return False
+        rows = []          # (keys of the first component [None = any], rest pattern, arm)
+        for arm in n["arms"]:
+            p = strip(arm["pat"])
+            if p.get("k") == "pwild":
+                rows.append(([None], {"k": "pwild"}, arm))
+                continue
+            if p.get("k") != "ptuple" or len(p.get("subs", [])) != len(sc["es"]) or p.get("rest"):
+                return False
+            ks = [key_of(a) for a in pat_alts(p["subs"][0])]
+            if any(k is False for k in ks):
+                return False
+            rest = p["subs"][1] if len(sc["es"]) == 2 else dict(p, subs=p["subs"][1:])
+            rows.append((ks, rest, arm))
+        order = []
+        for ks, _, _ in rows:
+            for k in ks:
+                if k is not None and k not in order:
+                    if any(subsumes(o, k) for o in order):
+                        return False        # a class listed after a more general one: the arm order matters across classes
+                    order.append(k)
+        if not order or not any(None in ks or any(subsumes(k, o) and k != o for k in ks for o in order) for ks, _, _ in rows):
+            return False          # nothing to regroup: every arm names exactly its own class
+        first_pat = {}
+        for ks, _, arm in rows:
+            p = strip(arm["pat"])
+            if p.get("k") == "ptuple":
+                for a in pat_alts(p["subs"][0]):
+                    if key_of(a) is not None:
+                        first_pat.setdefault(key_of(a), a)
+        used = set()
+
+        def inner(sel):
+            arms = []
+            for ks, rest, arm in rows:
+                if any(subsumes(k, sel) for k in ks):
+                    a2 = dict(arm, pat=rest)
+                    if id(arm) in used:
+                        a2 = _fresh_copy(a2)
+                    used.add(id(arm))
+                    arms.append(a2)
+            rest_scrut = sc["es"][1] if len(sc["es"]) == 2 else dict(sc, es=sc["es"][1:])
+            return single(arms, rest_scrut, n)
+        outer_arms = [{"pat": first_pat[k], "body": inner(k), "sp": n.get("sp")} for k in order]
+        if any(None in ks for ks, _, _ in rows):
+            outer_arms.append({"pat": {"k": "pwild"}, "body": inner(None), "sp": n.get("sp")})
+        holder[key] = {"k": "match", "scrut": sc["es"][0], "arms": outer_arms, "ty": n.get("ty"), "sp": n.get("sp"), "src": "match", "split_from_tuple": True}
+        return True
+
+    def peel_option(holder, key, n):
+        """Some(<literal>) / Some(_) / None / _ arms -> if let Some(t) = scrut { match t { literal arms } } else { None arm }"""
+        if any("guard" in a for a in n["arms"]) or not simple(n["scrut"]):
+            return False
+        kinds = []
+        for arm in n["arms"]:
+            p = strip(arm["pat"])
+            if p.get("k") == "pwild":
+                kinds.append(("any", None))
+            elif p.get("k") in ("pvariant", "pconst", "ppath") and p.get("path", "").endswith("Option::None"):
+                kinds.append(("none", None))
+            elif p.get("k") == "pvariant" and p.get("path", "").endswith("Option::Some") and len(p.get("subs", [])) == 1 and all(
+                    strip(a).get("k") in ("plit", "pwild") for a in pat_alts(p["subs"][0])):
+                kinds.append(("some", p["subs"][0]))
+            else:
+                return False
+        if not any(k == "some" and any(strip(a).get("k") == "plit" for a in pat_alts(sp)) for k, sp in kinds):
+            return False
+        _COPY_COUNTER[0] += 1
+        tid = 10 ** 12 + 10 ** 6 * _COPY_COUNTER[0] + 1
+        pty = None
+        inner_arms, else_body = [], None
+        for (k, sp), arm in zip(kinds, n["arms"]):
+            if k in ("some", "any"):
+                inner_arms.append(dict(arm, pat=sp if k == "some" else {"k": "pwild"}) if k == "some" or else_body is not None else _fresh_copy(dict(arm, pat={"k": "pwild"})))
+                if k == "some":
+                    pty = strip(pat_alts(sp)[0]).get("ty") or pty
+            if k in ("none", "any") and else_body is None:
+                else_body = arm["body"]
+        if else_body is None:
+            return False
+        tlocal = {"k": "local", "id": tid, "name": "matched", "ty": pty}
+        some_pat = {"k": "pvariant", "path": "core::option::Option::Some", "subs": [{"k": "pbind", "id": tid, "name": "matched", "ty": pty}]}
+        holder[key] = {"k": "if", "cond": {"k": "letexpr", "pat": some_pat, "init": n["scrut"], "ty": "bool", "sp": n.get("sp")},
+                       "then": {"k": "blockexpr", "b": {"k": "block", "stmts": [], "tail": single(inner_arms, tlocal, n)}, "ty": n.get("ty"), "sp": n.get("sp")},
+                       "else": else_body if else_body.get("k") == "blockexpr" else {"k": "blockexpr", "b": {"k": "block", "stmts": [], "tail": else_body}, "ty": n.get("ty"), "sp": n.get("sp")},
+                       "ty": n.get("ty"), "sp": n.get("sp"), "split_from_tuple": True}
+        return True
 
     def visit(holder, key):
         n = holder[key]
@@ -829,56 +955,10 @@ def split_tuple_matches(root):
                 visit(n, k_)
         if n.get("k") != "match" or n.get("src", "match") != "match":
             return
-        sc = peel(n["scrut"])
-        if sc.get("k") != "tuple" or len(sc.get("es", [])) < 2 or not all(simple(x) for x in sc["es"]):
-            return
-        rows = []          # (keys of the first component [None = any], rest pattern, arm)
-        for arm in n["arms"]:
-            p = arm["pat"]
-            while p.get("k") in ("pref", "pderef"):
-                p = p["pat"]
-            if p.get("k") == "pwild":
-                rows.append(([None], {"k": "pwild"}, arm))
-                continue
-            if p.get("k") != "ptuple" or len(p.get("subs", [])) != len(sc["es"]) or p.get("rest"):
-                return
-            ks = [key_of(a) for a in pat_alts(p["subs"][0])]
-            if any(k is False for k in ks):
-                return
-            rest = p["subs"][1] if len(sc["es"]) == 2 else dict(p, subs=p["subs"][1:])
-            rows.append((ks, rest, arm))
-        order = []
-        for ks, _, _ in rows:
-            for k in ks:
-                if k is not None and k not in order:
-                    order.append(k)
-        if not order or not any(None in ks for ks, _, _ in rows):
-            return          # nothing to regroup: every arm names its class, or none does
-        first_pat = {}
-        for ks, _, arm in rows:
-            p = arm["pat"]
-            while p.get("k") in ("pref", "pderef"):
-                p = p["pat"]
-            if p.get("k") == "ptuple":
-                for a in pat_alts(p["subs"][0]):
-                    if key_of(a) is not None:
-                        first_pat.setdefault(key_of(a), a)
-        used = set()
-
-        def inner(sel):
-            arms = []
-            for ks, rest, arm in rows:
-                if sel in ks or None in ks:
-                    a2 = dict(arm, pat=rest)
-                    if id(arm) in used:
-                        a2 = _fresh_copy(a2)
-                    used.add(id(arm))
-                    arms.append(a2)
-            rest_scrut = sc["es"][1] if len(sc["es"]) == 2 else dict(sc, es=sc["es"][1:])
-            return {"k": "match", "scrut": rest_scrut, "arms": arms, "ty": n.get("ty"), "sp": n.get("sp"), "src": "match", "split_from_tuple": True}
-        outer_arms = [{"pat": first_pat[k], "body": inner(k), "sp": n.get("sp")} for k in order]
-        outer_arms.append({"pat": {"k": "pwild"}, "body": inner(None), "sp": n.get("sp")})
-        holder[key] = {"k": "match", "scrut": sc["es"][0], "arms": outer_arms, "ty": n.get("ty"), "sp": n.get("sp"), "src": "match", "split_from_tuple": True}
+        if split_tuple(holder, key, n):
+            n = holder[key]
+        if n.get("k") == "match":
+            peel_option(holder, key, n)
     box = {"r": root}
     visit(box, "r")
     return box["r"]
